@@ -6,7 +6,7 @@
     the hook clauses and the treatment of parser functions are decided per run
     by the correspondence and the reference semantics. *)
 From Coq Require Import List NArith Bool.
-From WTP Require Import Base.Str Model.Expand Proofs.ExpandProofs Proofs.IdentityProofs.
+From WTP Require Import Base.Str Model.Expand Proofs.ExpandProofs Proofs.IdentityProofs Proofs.HookProofs.
 Import ListNotations.
 
 (* check_template_need_expand's four cases are the single rule: stored, not
@@ -55,3 +55,23 @@ Example c13_identity_example :
   inert [[35;105;102]] lib opts page = true /\
   expand_page [[35;105;102]] [] lib opts true 50 page = Some (render page).
 Proof. vm_compute. split; reflexivity. Qed.
+
+
+(* The hooks: when template_fn returns a string r for an expanded call (a call to a template - plain name, no
+   colon, not a parser function - that is selected or met while everything is expanded; not a loop, not too deep),
+   the call expands to r - with the automatic line break before a block marker, and replaced by post_template_fn's
+   result when that hook returns one - whatever the template's body is; the arguments are still bound (a failure
+   there is the only other outcome). *)
+Theorem c13_template_fn_result_replaces_the_call :
+  forall pfnames lib opts f stk ea (a0 : list item) (more : list (list item)) r,
+    expanded_call pfnames lib opts ea a0 = true -> (length stk < 100)%nat -> (length a0 < f)%nat ->
+    let name := codes (strip_i a0) in
+    detect_loop (stk ++ [FTemplate name]) = false ->
+    hook_ret (o_tfn opts) name = Some r ->
+    expand_T pfnames lib opts (S f) stk ea (a0 :: more) =
+    match build_args pfnames lib opts f (stk ++ [FTemplate name]) more 1 [] with
+    | None => None
+    | Some _ => Some (post_of opts name (chars r))
+    end.
+Proof. exact expand_T_hooked. Qed.
+Print Assumptions c13_template_fn_result_replaces_the_call.
